@@ -679,4 +679,240 @@ theorem rebuild_not_endsWithNL (c : Comment) (i : Nat) (h : c.tokenLike = true) 
   | cons x xs => rw [← ht]; simp only [ht, List.isEmpty_cons, Bool.false_eq_true, if_false]; rw [← ht]; exact token_not_endsWithNL c _ h
 
 
+
+/-! ### apply_trailing_trivia -/
+
+theorem applyTrailingTrivia_prefix (r : Text) (after : List Trivia) (i : Nat) :
+    applyTrailingTrivia r after i = r ++ applyTrailingTrivia [] after i := by
+  unfold applyTrailingTrivia
+  split
+  · simp
+  · split <;> simp
+  · simp
+
+theorem trim_last_comment (init : List Trivia) (c : Comment) (s : Text) :
+    trimTrailingLayoutNewline (init ++ [.comment c]) (s ++ ['\n']) = s := by
+  simp [trimTrailingLayoutNewline, Trivia.isLayout]
+
+theorem trim_last_comment_nil (init : List Trivia) (c : Comment) :
+    trimTrailingLayoutNewline (init ++ [.comment c]) [] = [] := by
+  simp [trimTrailingLayoutNewline, Trivia.isLayout]
+
+theorem trim_last_layout (init : List Trivia) (t : Trivia) (ht : t.isLayout = true) (s : Text) :
+    trimTrailingLayoutNewline (init ++ [t]) s = s := by
+  simp [trimTrailingLayoutNewline, ht]
+
+theorem formatTrivia_concat_comment (init : List Trivia) (c : Comment) (i : Nat) (h : CommaFree init) :
+    formatTrivia (init ++ [.comment c]) i = (formatTrivia init i ++ c.rebuild i) ++ ['\n'] := by
+  have h' : CommaFree (init ++ [.comment c]) := commaFree_append.mpr ⟨h, by simp [CommaFree]⟩
+  rw [formatTrivia_append _ _ _ h', formatTrivia_eq_flatMap [.comment c] i (by simp [CommaFree])]
+  simp [itemText]
+
+theorem applyTrailingTrivia_eq (r : Text) (after : List Trivia) (i : Nat) (hne : after ≠ []) :
+    applyTrailingTrivia r after i =
+      match headInline after with
+      | some (c, rest) => r ++ [' '] ++ c.rebuild 0 ++ nlBlock (trimTrailingLayoutNewline after (formatTrivia rest i))
+      | none => r ++ nlBlock (trimTrailingLayoutNewline after (formatTrivia after i)) := by
+  unfold applyTrailingTrivia
+  split
+  · exact absurd rfl hne
+  · rename_i c rest
+    by_cases hc : c.inline = true
+    · simp [headInline, hc, nlBlock]
+    · simp [headInline, hc, nlBlock]
+  · rename_i hnc
+    have : headInline after = none := by
+      unfold headInline
+      split
+      · rename_i c rest; exact absurd rfl (hnc _ _)
+      · rfl
+    simp [this, nlBlock]
+
+theorem headInline_some {ts : List Trivia} {c0 : Comment} {rest : List Trivia}
+    (h : headInline ts = some (c0, rest)) : ts = .comment c0 :: rest ∧ c0.inline = true := by
+  unfold headInline at h
+  split at h
+  · split at h
+    · simp only [Option.some.injEq, Prod.mk.injEq] at h
+      obtain ⟨rfl, rfl⟩ := h
+      exact ⟨rfl, by assumption⟩
+    · simp at h
+  · simp at h
+
+theorem nlBlock_ne_nil {s : Text} (h : s ≠ []) : nlBlock s = '\n' :: s := by
+  cases s with
+  | nil => exact absurd rfl h
+  | cons x xs => rfl
+
+theorem trailing_last_comment (r : Text) (init : List Trivia) (c : Comment) (i : Nat) (h : CommaFree init)
+    (hc : c.tokenLike = true) :
+    applyTrailingTrivia r (init ++ [.comment c]) i =
+      match headInline (init ++ [.comment c]) with
+      | some (c0, _) =>
+        if init.isEmpty then r ++ ' ' :: c.rebuild 0
+        else r ++ ' ' :: c0.rebuild 0 ++ '\n' :: formatTrivia init.tail i ++ c.rebuild i
+      | none => r ++ '\n' :: formatTrivia init i ++ c.rebuild i := by
+  rw [applyTrailingTrivia_eq _ _ _ (by simp)]
+  cases hh : headInline (init ++ [.comment c]) with
+  | none =>
+    simp only
+    rw [formatTrivia_concat_comment init c i h, trim_last_comment,
+      nlBlock_ne_nil (by simp [rebuild_ne_nil c i hc])]
+    simp
+  | some p =>
+    obtain ⟨c0, rest⟩ := p
+    obtain ⟨h1, h2⟩ := headInline_some hh
+    simp only
+    cases init with
+    | nil =>
+      simp only [List.nil_append, List.cons.injEq, Trivia.comment.injEq] at h1
+      obtain ⟨rfl, rfl⟩ := h1
+      have : formatTrivia [] i = [] := rfl
+      rw [this, trim_last_comment_nil]
+      simp [nlBlock]
+    | cons t init' =>
+      simp only [List.cons_append, List.cons.injEq] at h1
+      obtain ⟨rfl, rfl⟩ := h1
+      rw [formatTrivia_concat_comment init' c i (commaFree_cons h), trim_last_comment,
+        nlBlock_ne_nil (by simp [rebuild_ne_nil c i hc])]
+      simp
+
+theorem trailing_last_layout (r : Text) (init : List Trivia) (t : Trivia) (ht : t.isLayout = true) (i : Nat) :
+    applyTrailingTrivia r (init ++ [t]) i =
+      match headInline (init ++ [t]) with
+      | some (c0, rest) => r ++ ' ' :: c0.rebuild 0 ++ nlBlock (formatTrivia rest i)
+      | none => r ++ nlBlock (formatTrivia (init ++ [t]) i) := by
+  rw [applyTrailingTrivia_eq _ _ _ (by simp)]
+  simp only [trim_last_layout init t ht]
+  split <;> simp
+
+
+theorem leavesOpen_concat_comment (init : List Trivia) (c : Comment) :
+    leavesOpenComment (init ++ [.comment c]) = true := by
+  simp [leavesOpenComment, lastIsComment, Trivia.isComment]
+
+theorem leavesOpen_concat_layout (init : List Trivia) (t : Trivia) (ht : t.isLayout = true) :
+    leavesOpenComment (init ++ [t]) = inlineHeadOnly (init ++ [t]) := by
+  have h1 : lastIsComment (init ++ [t]) = false := by
+    cases t <;> simp [Trivia.isLayout, lastIsComment, Trivia.isComment] at ht ⊢
+  unfold leavesOpenComment
+  rw [h1, Bool.false_or]
+
+theorem inlineHeadOnly_none {ts : List Trivia} (h : headInline ts = none) : inlineHeadOnly ts = false := by
+  simp [inlineHeadOnly, h]
+theorem inlineHeadOnly_some {ts : List Trivia} {c : Comment} {rest : List Trivia}
+    (h : headInline ts = some (c, rest)) : inlineHeadOnly ts = rest.all (· == .linebreak) := by
+  simp [inlineHeadOnly, h]
+
+theorem trailing_open_iff (after : List Trivia) (i : Nat) (h : CommaFree after)
+    (hc : ∀ c, .comment c ∈ after → c.tokenLike = true) :
+    (applyTrailingTrivia [] after i ≠ [] ∧ endsWithNL (applyTrailingTrivia [] after i) = false) ↔
+      leavesOpenComment after = true := by
+  rcases List.eq_nil_or_concat after with rfl | ⟨init, t, he⟩
+  · simp [applyTrailingTrivia, leavesOpenComment, lastIsComment, headInline, inlineHeadOnly]
+  · rw [List.concat_eq_append] at he; subst he
+    have hinit : CommaFree init := (commaFree_append.mp h).1
+    by_cases ht : t.isLayout = true
+    · rw [trailing_last_layout [] init t ht i, leavesOpen_concat_layout init t ht]
+      cases hh : headInline (init ++ [t]) with
+      | none =>
+        rw [inlineHeadOnly_none hh]
+        simp only [List.nil_append, Bool.false_eq_true, iff_false, not_and, Bool.not_eq_false]
+        intro hne
+        rcases formatTrivia_nil_or_nl (init ++ [t]) i h with h0 | h1
+        · rw [h0] at hne; simp [nlBlock] at hne
+        · have : formatTrivia (init ++ [t]) i ≠ [] := by intro h0; rw [h0] at h1; simp at h1
+          rw [nlBlock_ne_nil this]
+          rw [show '\n' :: formatTrivia (init ++ [t]) i = ['\n'] ++ formatTrivia (init ++ [t]) i from rfl,
+            endsWithNL_append_of_ne_nil _ _ this]
+          exact h1
+      | some p =>
+        obtain ⟨c0, rest⟩ := p
+        obtain ⟨h1, h2⟩ := headInline_some hh
+        have hrest : CommaFree rest := by rw [h1] at h; exact commaFree_cons h
+        have hc0 : c0.tokenLike = true := hc c0 (by rw [h1]; exact List.mem_cons_self)
+        simp only [List.nil_append]
+        rw [inlineHeadOnly_some hh, ← formatTrivia_eq_nil_iff rest i hrest]
+        constructor
+        · rintro ⟨_, hnl⟩
+          rcases formatTrivia_nil_or_nl rest i hrest with h0 | h1'
+          · exact h0
+          · exfalso
+            have hne : formatTrivia rest i ≠ [] := by intro h0; rw [h0] at h1'; simp at h1'
+            rw [nlBlock_ne_nil hne,
+              show ' ' :: c0.rebuild 0 ++ '\n' :: formatTrivia rest i
+                = (' ' :: c0.rebuild 0 ++ ['\n']) ++ formatTrivia rest i by simp,
+              endsWithNL_append_of_ne_nil _ _ hne, h1'] at hnl
+            simp at hnl
+        · intro h0
+          rw [h0]
+          simp only [nlBlock, List.isEmpty_nil, if_true, List.append_nil]
+          refine ⟨by simp, ?_⟩
+          rw [show ' ' :: c0.rebuild 0 = [' '] ++ c0.rebuild 0 from rfl,
+            endsWithNL_append_of_ne_nil _ _ (rebuild_ne_nil c0 0 hc0)]
+          exact rebuild_not_endsWithNL c0 0 hc0
+    · -- the last item is a comment
+      cases t with
+      | emptyLine => simp [Trivia.isLayout] at ht
+      | linebreak => simp [Trivia.isLayout] at ht
+      | comma => exact absurd (List.mem_append_right _ List.mem_cons_self) h
+      | comment c =>
+        have hct : c.tokenLike = true := hc c (List.mem_append_right _ List.mem_cons_self)
+        rw [leavesOpen_concat_comment, trailing_last_comment [] init c i hinit hct]
+        simp only [iff_true]
+        have e : ∀ (pre : Text) (j : Nat), pre ++ c.rebuild j ≠ [] ∧ endsWithNL (pre ++ c.rebuild j) = false := by
+          intro pre j
+          refine ⟨by simp [rebuild_ne_nil c j hct], ?_⟩
+          rw [endsWithNL_append_of_ne_nil _ _ (rebuild_ne_nil c j hct)]
+          exact rebuild_not_endsWithNL c j hct
+        split
+        · split
+          · exact e [' '] 0
+          · rename_i c0 _ _ _
+            have := e (' ' :: c0.rebuild 0 ++ '\n' :: formatTrivia init.tail i) i
+            simpa using this
+        · have := e ('\n' :: formatTrivia init i) i
+          simpa using this
+
+theorem trailing_open_suffix (after : List Trivia) (i : Nat) (h : CommaFree after)
+    (hc : ∀ c, .comment c ∈ after → c.tokenLike = true) (ho : leavesOpenComment after = true) :
+    ∃ c pre, .comment c ∈ after ∧ applyTrailingTrivia [] after i = pre ++ c.rebuild i := by
+  rcases List.eq_nil_or_concat after with rfl | ⟨init, t, he⟩
+  · simp [leavesOpenComment, lastIsComment, headInline, inlineHeadOnly] at ho
+  · rw [List.concat_eq_append] at he; subst he
+    have hinit : CommaFree init := (commaFree_append.mp h).1
+    by_cases ht : t.isLayout = true
+    · rw [leavesOpen_concat_layout init t ht] at ho
+      rw [trailing_last_layout [] init t ht i]
+      cases hh : headInline (init ++ [t]) with
+      | none => rw [inlineHeadOnly_none hh] at ho; simp at ho
+      | some p =>
+        obtain ⟨c0, rest⟩ := p
+        obtain ⟨h1, h2⟩ := headInline_some hh
+        rw [inlineHeadOnly_some hh] at ho
+        have hrest : CommaFree rest := by rw [h1] at h; exact commaFree_cons h
+        rw [← formatTrivia_eq_nil_iff rest i hrest] at ho
+        refine ⟨c0, [' '], by rw [h1]; exact List.mem_cons_self, ?_⟩
+        simp [ho, nlBlock, rebuild_inline c0 i h2]
+    · cases t with
+      | emptyLine => simp [Trivia.isLayout] at ht
+      | linebreak => simp [Trivia.isLayout] at ht
+      | comma => exact absurd (List.mem_append_right _ List.mem_cons_self) h
+      | comment c =>
+        have hct : c.tokenLike = true := hc c (List.mem_append_right _ List.mem_cons_self)
+        refine ⟨c, ?_⟩
+        rw [trailing_last_comment [] init c i hinit hct]
+        split
+        · split
+          · rename_i c0 rest hh hie
+            obtain ⟨h1, h2⟩ := headInline_some hh
+            have : init = [] := by simpa using hie
+            subst this
+            simp only [List.nil_append, List.cons.injEq, Trivia.comment.injEq] at h1
+            obtain ⟨rfl, rfl⟩ := h1
+            exact ⟨[' '], by simp, by simp [rebuild_inline _ i h2]⟩
+          · rename_i c0 _ _ _
+            exact ⟨' ' :: c0.rebuild 0 ++ '\n' :: formatTrivia init.tail i, by simp, by simp⟩
+        · exact ⟨'\n' :: formatTrivia init i, by simp, by simp⟩
+
 end Nima
